@@ -710,27 +710,48 @@ Section FinderProofs.
 Variables K I R : Type.
 Variable norm : K -> K.
 Variable find : K -> I -> R.
-Hypothesis norm_idem : forall k, norm (norm k) = norm k.
 Notation sfcall := (sfcall K I R norm find).
 Notation sfrun := (sfrun K I R norm find).
 
+(* repaired code: the kernel attribute is only read *)
+Lemma sfrun_ro k0 h :
+  map fst (sfrun false k0 h) = map (fun i => snd (sfcall false k0 i)) h /\
+  Forall (fun rk => snd rk = k0) (sfrun false k0 h).
+Proof.
+  induction h as [|i h [IH1 IH2]]; [split; [reflexivity|constructor]|].
+  cbn [C09_Model.sfrun C09_Model.sfcall map fst snd]. split; [f_equal; exact IH1|].
+  constructor; [reflexivity|exact IH2].
+Qed.
+Lemma starfinder_calls_fresh_lemma k0 h :
+  map fst (sfrun false k0 h) = map (fun i => snd (sfcall false k0 i)) h /\
+  Forall (fun rk => snd rk = k0) (sfrun false k0 h).
+Proof. apply sfrun_ro. Qed.
+
+(* code as found (in-place normalisation): fresh results only if the normalisation is idempotent *)
+Hypothesis norm_idem : forall k, norm (norm k) = norm k.
 Lemma sfrun_ok k0 h : forall k, norm k = norm k0 ->
-  map fst (sfrun k h) = map (fun i => snd (sfcall k0 i)) h.
+  map fst (sfrun true k h) = map (fun i => snd (sfcall true k0 i)) h.
 Proof.
   induction h as [|i h IH]; intros k E; [reflexivity|].
   cbn [C09_Model.sfrun C09_Model.sfcall map fst snd]. rewrite E. f_equal.
   apply IH. rewrite norm_idem. reflexivity.
 Qed.
-Lemma starfinder_calls_fresh_lemma k0 h :
-  map fst (sfrun k0 h) = map (fun i => snd (sfcall k0 i)) h.
+Lemma starfinder_inplace_calls_fresh_lemma k0 h :
+  map fst (sfrun true k0 h) = map (fun i => snd (sfcall true k0 i)) h.
 Proof. apply sfrun_ok. reflexivity. Qed.
 End FinderProofs.
 
 (* DAOStarFinder / IRAFStarFinder: configuration is only read *)
 Lemma readonly_finder_calls_fresh_lemma (K I R : Type) (find : K -> I -> R) k0 h :
-  map fst (sfrun K I R (fun k => k) find k0 h) = map (fun i => find k0 i) h.
-Proof. apply (starfinder_calls_fresh_lemma K I R (fun k => k) find (fun k => eq_refl) k0 h). Qed.
+  map fst (sfrun K I R (fun k => k) find false k0 h) = map (fun i => find k0 i) h.
+Proof. apply (starfinder_calls_fresh_lemma K I R (fun k => k) find k0 h). Qed.
 
+(* without idempotence the in-place version does depend on earlier calls *)
+Lemma starfinder_inplace_refuted_lemma :
+  exists (k0 : Z) (h : list Z),
+    map fst (sfrun Z Z Z (fun k => k / 2)%Z (fun k i => k + i)%Z true k0 h)
+    <> map (fun i => snd (sfcall Z Z Z (fun k => k / 2)%Z (fun k i => k + i)%Z true k0 i)) h.
+Proof. exists 8%Z, [0; 0]%Z. vm_compute. discriminate. Qed.
 
 (* ------------------------------------------------------------------------- *)
 (* the correspondence predicates accept only observation lists on which the   *)
@@ -798,7 +819,7 @@ Proof. apply pscheck_sound_gen. reflexivity. Qed.
 (* Ellipse.fit_image *)
 Definition eobs_ok (ob : eobsv) : Prop :=
   let '(id, lin, fc, fp, fe, (eqf, lin_after, fix_after)) := ob in eqf = true.
-Lemma echeck_sound_gen g0 h : echeck g0 g0 h = true -> Forall eobs_ok h.
+Lemma echeck_sound_gen g0 h : echeck false g0 g0 h = true -> Forall eobs_ok h.
 Proof.
   induction h as [|[[[[[id lin] fc] fp] fe] [[eqf la] fa]] h IH]; intros H; [constructor|].
   cbn [echeck] in H.
@@ -811,7 +832,7 @@ Proof.
   constructor; [|apply IH; assumption].
   unfold eobs_ok. rewrite term_eqb_refl in H. destruct eqf; [reflexivity|discriminate].
 Qed.
-Lemma echeck_sound_lemma g0 h : echeck g0 g0 h = true -> Forall eobs_ok h.
+Lemma echeck_sound_lemma g0 h : echeck false g0 g0 h = true -> Forall eobs_ok h.
 Proof. apply echeck_sound_gen. Qed.
 
 (* GriddedPSFModel *)
